@@ -13,6 +13,7 @@
 From Verif Require Import Lib.Base Lib.Sx Lib.Err Lib.IO Model.ErrorsPkg Model.Faults.
 From Verif Require Import Proofs.ErrorsPkg Proofs.FaultsIO Proofs.Faults Proofs.FaultsFlv Proofs.FaultsWrite Proofs.FaultsBufw.
 From Verif Require Model.Flv Proofs.Flv.
+From Verif Require Model.RtmpChunk Proofs.RtmpChunk Proofs.RtmpChunkRT Proofs.FaultsRtmpChunk.
 Open Scope N_scope.
 
 (* ================================ the errors package ================================
@@ -200,6 +201,27 @@ Example c08_rtmp_read_example :
   run 141 id_EOF = (0, id_EOF) /\ run 200 4 = (0, 4).
 Proof. vm_compute. auto 10. Qed.
 
+(* ================================ RTMP read path, cut stream, data-dependent reader ================
+   Over the rtmpchunk builder's model of ReadMessage (Model/RtmpChunk.v: basic header, message
+   header, extended timestamp, payload assembled per chunk stream, Set Chunk Size applied on arrival;
+   its transport ends with a clean EOF): for every list of well-formed messages written by
+   WriteMessage with the chunk sizes in force, every cut offset k <= length of the wire and every
+   segmentation of the first k bytes, the read loop returns exactly the first n messages, where n is
+   the number of messages whose bytes lie wholly within the first k, and then fails with io.EOF or
+   io.ErrUnexpectedEOF -- never another error, never a panic, never an incomplete message.
+   (Which of the two, and injected errors: c08_rtmp_read_partial.) *)
+Theorem c08_rtmp_read_cut ms c s fuel k :
+  Forall Proofs.RtmpChunkRT.wf_msg ms -> 0 < c -> Model.RtmpChunk.in_chunk s = c ->
+  Proofs.RtmpChunkRT.all_idle s -> (length ms < fuel)%nat ->
+  Forall (fun m => (length (Model.RtmpChunk.m_payload m) + length ms < fuel)%nat) ms ->
+  exists ws, Model.RtmpChunk.write_all c ms = map Ok ws /\
+    forall i, k <= lenN (concat ws) -> Proofs.RtmpChunk.flat i = firstn (N.to_nat k) (concat ws) ->
+     exists n e, Model.RtmpChunk.read_all fuel s i [] = (firstn n ms, e) /\
+       (e = Model.RtmpChunk.E_EOF \/ e = Model.RtmpChunk.E_UEOF) /\ (n <= length ms)%nat /\
+       lenN (concat (firstn n ws)) <= k /\
+       ((n < length ms)%nat -> k < lenN (concat (firstn (S n) ws))).
+Proof. intros W Hc Hin Hidle Hf Hfs. exact (Proofs.FaultsRtmpChunk.session_cut_segmented ms W c s fuel k Hc Hin Hidle Hf Hfs). Qed.
+
 (* ================================ RTMP write path (partial) ================================
    The write path as the operations it performs: the handshake writes (one io.Copy each on the raw
    transport) and, per WriteMessage, the io.Copy of c0/c3 headers and payload parts into the
@@ -265,5 +287,6 @@ Print Assumptions c08_plan_items.
 Print Assumptions c08_plan_boundary.
 Print Assumptions c08_plan_inside.
 Print Assumptions c08_rtmp_read_always_error.
+Print Assumptions c08_rtmp_read_cut.
 Print Assumptions c08_rtmp_write_partial.
 Print Assumptions c08_bufio_write_ops.
